@@ -404,6 +404,24 @@ func eqGen(g *G, tier string) []M {
 				ops = append(ops, M{"op": "equalNode", "n": base, "m": other, "kind": "perturbed"})
 				break
 			}
+			if g.Chance(0.15) {
+				// a date that is present against the same node without it, for the instants most easily
+				// mistaken for "no date": the epoch and 0001-01-01T00:00:00Z
+				at, _ := base["a"].(M)
+				if at == nil {
+					at = M{}
+					base["a"] = at
+				}
+				fld := g.Pick([]string{"ReleaseDate", "BuildDate", "ValidUntilDate"})
+				at[fld] = []any{float64(g.Pick2([]int{0, -62135596800, 1700000000})), 0.0}
+				other := Normalize(base).(M)
+				delete(other["a"].(M), fld)
+				if g.Chance(0.5) {
+					base, other = other, base
+				}
+				ops = append(ops, M{"op": "equalNode", "n": base, "m": other, "kind": "perturbed"})
+				break
+			}
 			p, _ := g.perturb(base)
 			ops = append(ops, M{"op": "equalNode", "n": base, "m": p, "kind": "perturbed"})
 		case 2:
